@@ -36,7 +36,7 @@ def run(ctx):
     seeds = [ctx.seed] if ctx.tier == "quick" else [ctx.seed + i for i in range(3)]
     aof_common.run_mode(ctx, exe, "aofrewrite", n, ["C16:"], classify, "M-AOF keep-rule / compaction steps / recoverDir vs real rewrite + FindAofFiles + LoadAofFiles",
                         seeds=seeds, stats_key="aofrewrite")
-    aof_common.run_restart(ctx, exe, 40 if ctx.tier == "quick" else 400, ["C16:"], seeds=seeds)
+    aof_common.run_restart(ctx, exe, 25 if ctx.tier == "quick" else 400, ["C16:"], seeds=seeds)
     ctx.cov["rule"] = ("aofrewrite, per case: 2-5 real holds (seconds/minutes/unlimited/ms; with/without value) taken and updated (flag 0x02) in the virtual past; 1-3 journal records per hold "
                        "by the real Push at a later second (age 0-300 s, minutes 0-600 s), update flag on/off, value none/current/stale, UNLOCK records, unknown keys/LockIds; written by the real "
                        "writer into optional rewrite.aof + 1-3 closed append files; real loadRewriteAofFiles at virtual now = real now; every file-system mutation of clearRewriteAofFiles "
